@@ -7,12 +7,20 @@
 //!   per frame three observations: `10 full..` `11 pos..` `12 neg..` (or `8 code` for a panic)
 //! Envelope case:   `E <fmt> <nch> <det> <window> <attack f32 bits> <release f32 bits> <mode> ; op , op ...`
 //!   det 0 full wave, 1 positive half wave, 2 negative half wave, 3 rms(window)
-//!   mode 0 Detector::next, 1 signal.detect_envelope(detector) (setters through the adaptor)
-//!   ops: `f v..` frame, `a bits` set_attack_frames, `r bits` set_release_frames
+//!   mode 0 Detector::next, 1 signal::from_iter(frames).detect_envelope(detector),
+//!        2 signal::from_interleaved_samples_iter(samples).detect_envelope(detector)
+//!        (adaptor modes: the source is FINITE = the `f` frames of the case; setters through the adaptor)
+//!   ops: `f v..` frame, `a bits` set_attack_frames, `r bits` set_release_frames,
+//!        `x` (adaptor modes, only after the last `f`) one more pull from the exhausted source,
+//!        `p v..` (last op) adaptor modes: into_parts(), then the returned detector gets frame v;
+//!                mode 0: the detector itself gets frame v
 //!   first observation `22 ga gr ra rr`: attack/release gains in use (from the Debug output of the
 //!   detector) and the gains recomputed with the source expression; again after every setter;
 //!   per frame `20 env.. det..` (env = output frame, det = detected frame from a second, independent
-//!   instance of the detector's Detect) or `8 code` (panic; the case stops there).
+//!   instance of the detector's Detect) or `8 code` (panic; the case stops there); in the adaptor modes
+//!   `24 exh env.. det..` with exh = is_exhausted() before the pull; `p`: `25 ga gr exh env.. det..`
+//!   (gains of the returned detector from its Debug output, exh = is_exhausted() of the returned source,
+//!   0 in mode 0).
 use dasp_envelope::{Detect, Detector};
 use dasp_frame::Frame;
 use dasp_peak::{FullWave, NegativeHalfWave, PositiveHalfWave, Rectifier};
@@ -149,6 +157,30 @@ enum Op {
     Frame(Vec<i128>),
     Attack(f32),
     Release(f32),
+    Pull,
+    Parts(Vec<i128>),
+}
+
+/// harness glue: one type for the two finite sources, so that one DetectEnvelope type serves both
+#[derive(Clone)]
+enum Src<F: Frame> {
+    It(signal::FromIterator<std::vec::IntoIter<F>>),
+    Il(signal::FromInterleavedSamplesIterator<std::vec::IntoIter<F::Sample>, F>),
+}
+impl<F: Frame> Signal for Src<F> {
+    type Frame = F;
+    fn next(&mut self) -> F {
+        match self {
+            Src::It(s) => s.next(),
+            Src::Il(s) => s.next(),
+        }
+    }
+    fn is_exhausted(&self) -> bool {
+        match self {
+            Src::It(s) => s.is_exhausted(),
+            Src::Il(s) => s.is_exhausted(),
+        }
+    }
 }
 
 fn gains_obs(g: (f32, f32), a: f32, r: f32) -> String {
@@ -174,10 +206,59 @@ where
     let mut det = Some(det);
     let mut sig = None;
     if mode == 1 {
-        sig = Some(signal::from_iter(frames.clone().into_iter()).detect_envelope(det.take().unwrap()));
+        sig = Some(Src::It(signal::from_iter(frames.clone().into_iter())).detect_envelope(det.take().unwrap()));
+    } else if mode == 2 {
+        let samples: Vec<F::Sample> = frames.iter().flat_map(|f| f.channels()).collect();
+        sig = Some(Src::Il(signal::from_interleaved_samples_iter::<_, F>(samples.into_iter())).detect_envelope(det.take().unwrap()));
     }
-    for op in ops {
+    let n_frames = frames.len();
+    let mut pulled = 0usize;
+    for (oi, op) in ops.iter().enumerate() {
         match op {
+            Op::Pull => {
+                assert!(mode != 0 && pulled == n_frames, "`x` only in adaptor modes after the last frame");
+                let s = sig.as_mut().unwrap();
+                let exh = s.is_exhausted() as i128;
+                let env = catch(|| enc_frame(s.next()));
+                let dv = catch(|| enc_frame(d2.detect(F::EQUILIBRIUM)));
+                match (env, dv) {
+                    (Ok(e), Ok(d)) => {
+                        let mut v = vec![exh];
+                        v.extend(e);
+                        v.extend(d);
+                        out.push(obs128(24, &v));
+                    }
+                    (Err(c), _) | (_, Err(c)) => {
+                        out.push(obs(8, &[c]));
+                        break;
+                    }
+                }
+            }
+            Op::Parts(v) => {
+                assert!(oi + 1 == ops.len(), "`p` must be the last op");
+                let fr: F = mk_frame(v);
+                let (exh, mut d) = match (det.take(), sig.take()) {
+                    (Some(d), _) => (0, d),
+                    (None, Some(s)) => {
+                        let (src, d) = s.into_parts();
+                        (src.is_exhausted() as i128, d)
+                    }
+                    _ => unreachable!(),
+                };
+                let g = debug_gains(&d);
+                let env = catch(|| enc_frame(d.next(fr)));
+                let dv = catch(|| enc_frame(d2.detect(fr)));
+                match (env, dv) {
+                    (Ok(e), Ok(dd)) => {
+                        let mut v = vec![canon32(g.0), canon32(g.1), exh];
+                        v.extend(e);
+                        v.extend(dd);
+                        out.push(obs128(25, &v));
+                    }
+                    (Err(c), _) | (_, Err(c)) => out.push(obs(8, &[c])),
+                }
+                break;
+            }
             Op::Attack(x) => {
                 a = *x;
                 let g = match (&mut det, &mut sig) {
@@ -212,6 +293,8 @@ where
             }
             Op::Frame(v) => {
                 let fr: F = mk_frame(v);
+                pulled += 1;
+                let exh = sig.as_ref().map(|s| s.is_exhausted() as i128);
                 let env = catch(|| match (&mut det, &mut sig) {
                     (Some(d), _) => enc_frame(d.next(fr)),
                     (None, Some(s)) => enc_frame(s.next()),
@@ -221,7 +304,13 @@ where
                 match (env, dv) {
                     (Ok(mut e), Ok(d)) => {
                         e.extend(d);
-                        out.push(obs128(20, &e));
+                        match exh {
+                            None => out.push(obs128(20, &e)),
+                            Some(x) => {
+                                e.insert(0, x);
+                                out.push(obs128(24, &e));
+                            }
+                        }
                     }
                     (Err(c), _) => {
                         out.push(obs(8, &[c]));
@@ -321,6 +410,8 @@ fn main() {
                     "f" => Op::Frame(i128s(&t[1..])),
                     "a" => Op::Attack(f32::from_bits(t[1].parse::<u32>().unwrap())),
                     "r" => Op::Release(f32::from_bits(t[1].parse::<u32>().unwrap())),
+                    "x" => Op::Pull,
+                    "p" => Op::Parts(i128s(&t[1..])),
                     other => panic!("unknown op {}", other),
                 })
                 .collect();
